@@ -195,8 +195,10 @@ def main(argv):
     ev = {'property_id': prop, 'tier': tier, 'seed': seed, 'level': 'proof', 'coverage': cov,
           'assumptions': getattr(mod, 'ASSUMPTIONS', []), 'wall_s': round(wall, 2),
           'violations': len(new_viol) + (1 if (not new_viol and (broken or rep.disagreements)) else 0)}
-    os.makedirs(os.path.join(vlib.VERIF, 'evidence'), exist_ok=True)
-    with open(os.path.join(vlib.VERIF, 'evidence', f'{prop}.json'), 'w') as fh:
+    # VERIF_EVIDENCE_DIR: development only (tools/run_seeded.py keeps runs against seeded changes out of evidence/)
+    evdir = os.environ.get('VERIF_EVIDENCE_DIR') or os.path.join(vlib.VERIF, 'evidence')
+    os.makedirs(evdir, exist_ok=True)
+    with open(os.path.join(evdir, f'{prop}.json'), 'w') as fh:
         json.dump(ev, fh, indent=1, default=str)
     print(f"{prop} tier={tier} seed={seed}: obligations {discharged}/{obligations}, cases {rep.evaluations} "
           f"({len(rep.distinct)} distinct), disagreements {len(rep.disagreements)}, oracle violations {len(rep.violations)} "
